@@ -288,3 +288,6 @@ def run(ctx):
     ctx.rule('C07.FLUSHNOTIFY', lambda: _c07.rule_flushnotify(ctx), 4)
     ctx.rule('C07.HANDOVER', lambda: _c07.rule_mempool_handover(ctx), 4)
     ctx.rule('C20', lambda: _c20._run(ctx))
+    # mempool answers at quiescence: every refresh re-processes (a tx left out by a transient fault is retried)
+    from . import c09 as _c09e
+    ctx.rule('C09.EVERYREFRESH', lambda: _c09e.rule_everyrefresh(ctx), 1)
